@@ -30,6 +30,8 @@ type Term struct {
 	R   bool     // signed value known to lie in [Lo,Hi] (justified by an assumption on the path)
 	Lo  int64
 	Hi  int64
+	Pool []float64 // the term is Pool[Sel] (a solver-chosen member of a concrete pool); lets Sprintf format it
+	Sel  *Term
 }
 
 func (t *Term) String() string { return t.S }
